@@ -20,3 +20,4 @@
 (declare-fun nav_nsurl (Pos) Str)
 (declare-fun nodetype_ (Pos) INTSORT)   ; what NodeType() returns at a position (0..4, as a Go int)
 (declare-fun ancn (Pos Int) Pos)        ; the n-th ancestor (ancn(p,0) = p), defined by the instance ancnStep
+(declare-fun predv (Int Pos) Bool)      ; what the node test stored in query object #1 answers at a position (deterministic)
